@@ -35,7 +35,10 @@ def py_values(tier):
     dts = [dt.datetime(1, 1, 1), dt.datetime(9999, 12, 31, 23, 59, 59, 999999), dt.datetime(2020, 2, 29, 12, 0, tzinfo=dt.timezone.utc),
            dt.datetime(2020, 1, 1, 0, 0, 0, 5000, tzinfo=tz)]
     tds = [dt.timedelta(0), dt.timedelta(microseconds=5000), dt.timedelta(microseconds=1), dt.timedelta(days=1, seconds=1),
-           dt.timedelta(days=-1), dt.timedelta(seconds=0.5), dt.timedelta(days=400, hours=5, microseconds=123)]
+           dt.timedelta(days=-1), dt.timedelta(seconds=0.5), dt.timedelta(days=400, hours=5, microseconds=123),
+           # beyond 2**53 microseconds: float arithmetic is no longer exact
+           dt.timedelta(days=200000, microseconds=1), dt.timedelta(days=999999999), dt.timedelta(days=150000, seconds=86399, microseconds=999999),
+           dt.timedelta(days=-200000, microseconds=1), dt.timedelta.max, dt.timedelta.min]
     vals = [("int", v) for v in ints] + [("float", v) for v in floats] + [("Decimal", v) for v in decs] + \
            [("bool", True), ("bool", False), ("str", ""), ("str", "a\nb")] + \
            [("date", v) for v in dates] + [("time", v) for v in times] + [("datetime", v) for v in dts] + \
